@@ -4,13 +4,18 @@
 the targeted property's check (and optionally every other check) against it.
 
 usage: mutation_sweep.py [--only PROP|ID] [--cross] [--tier quick] [--jobs N] [--out FILE]"""
-import json, os, re, shutil, subprocess, sys, time
+import json, os, re, shutil, subprocess, sys, time, hashlib
 from concurrent.futures import ThreadPoolExecutor
 sys.path.insert(0, os.path.join(os.path.dirname(os.path.abspath(__file__)), "..", "mutants"))
 import probes  # noqa: E402
 
 ROOT = "/tmp/mut"
 TESTS = os.path.join(ROOT, "tests_build")
+
+
+def rm_build(d):
+    """remove the world executables built for a scratch copy"""
+    shutil.rmtree(os.path.join("/verif/build", hashlib.sha256(os.path.realpath(d).encode()).hexdigest()[:8]), ignore_errors=True)
 
 
 def sh(cmd, cwd=None, env=None, timeout=3600):
@@ -141,6 +146,7 @@ def main():
                 rc2, dt2, sig2 = run_check(d, pid, tier, max(1, 16 // jobs))
                 if rc2 != 0:
                     rec["cross"][pid] = dict(rc=rc2, sig=sig2)
+        rm_build(d)
         shutil.rmtree(d, ignore_errors=True)
         return p, rec
 
